@@ -148,6 +148,17 @@ struct Script {
     ws: bool,
     /// the caller-supplied `verify` panics (`verify_ok` is false as well: nothing may be published)
     verify_panics: bool,
+    /// flavour of the verify callback: 0 plain, 1 panics with a String, 2 with a &'static str, 3 with a
+    /// non-string payload, 4 slow (sleeps, then answers `verify_ok`)
+    verify_kind: u8,
+    /// the caller-supplied digest `Write` refuses once more than N bytes were fed: (N, panics instead of Err)
+    dfault: Option<(u64, bool)>,
+    /// the write_file pullers entered through `pull_stream::<()>(.., StreamOutput::..)` instead of the
+    /// convenience function (documented twins)
+    via_ps: bool,
+    /// presentation of the peer's answers that the model does not see (query bytes of the last flag, error
+    /// codes and bodies, stream ids, format codes, resource names): must not matter
+    style: u64,
 }
 
 /// Deterministic filler for large bodies (`g<seed>.<len>` on the line protocol; twin of `genBytes`).
@@ -196,9 +207,11 @@ fn parse_resp(w: &str) -> Option<Resp> {
 impl Script {
     fn words(&self) -> String {
         let mut s = format!(
-            "{}{} {} {} {} {} {} {} - {} {} wire",
+            "{}{}{}{} {} {} {} {} {} {} - {} {} wire",
             self.puller.name(),
             if self.ws { "@ws" } else { "" },
+            if self.via_ps { "@ps" } else { "" },
+            if self.style != 0 { format!("@s{}", self.style) } else { String::new() },
             if self.zstd { "zstd" } else { "none" },
             if self.beve { "beve" } else { "raw" },
             match self.open {
@@ -206,7 +219,14 @@ impl Script {
                 Open::Err => "err",
                 Open::Cut => "cut",
             },
-            if self.verify_panics { "panic" } else if self.verify_ok { "ok" } else { "rej" },
+            match (self.verify_kind, self.verify_ok) {
+                (1, _) => "panic",
+                (2, _) => "panics",
+                (3, _) => "panicv",
+                (4, true) => "slow",
+                (_, true) => "ok",
+                (_, false) => "rej",
+            },
             self.trailer,
             match self.dest {
                 Dest::Old => "old",
@@ -222,7 +242,13 @@ impl Script {
                 Dec::Err => "err".to_string(),
                 Dec::Ok(b) => body_word(b),
             },
-            if self.sync_fault { "sync".to_string() } else { self.wfault.map(|k| k.to_string()).unwrap_or("-".into()) },
+            if self.sync_fault {
+                "sync".to_string()
+            } else if let Some((n, pan)) = self.dfault {
+                format!("{}{}", if pan { "p" } else { "d" }, n)
+            } else {
+                self.wfault.map(|k| k.to_string()).unwrap_or("-".into())
+            },
         );
         for r in &self.wire {
             s.push(' ');
@@ -244,8 +270,12 @@ impl Script {
         let after = if i < w.len() { w[i + 1..].iter().map(|s| s.to_string()).collect() } else { vec![] };
         Some((
             Script {
-                puller: Puller::parse(w[0].trim_end_matches("@ws"))?,
-                ws: w[0].ends_with("@ws"),
+                puller: Puller::parse(w[0].split('@').next()?)?,
+                ws: w[0].split('@').any(|x| x == "ws"),
+                via_ps: w[0].split('@').any(|x| x == "ps"),
+                style: w[0].split('@').find_map(|x| x.strip_prefix('s').and_then(|n| n.parse().ok())).unwrap_or(0),
+                verify_kind: match w[4] { "panic" => 1, "panics" => 2, "panicv" => 3, "slow" => 4, _ => 0 },
+                dfault: w[9].strip_prefix('d').and_then(|n| n.parse().ok()).map(|n| (n, false)).or(w[9].strip_prefix('p').and_then(|n| n.parse().ok()).map(|n| (n, true))),
                 zstd: w[1] == "zstd",
                 beve: w[2] == "beve",
                 open: match w[3] {
@@ -253,8 +283,8 @@ impl Script {
                     "err" => Open::Err,
                     _ => Open::Cut,
                 },
-                verify_ok: w[4] == "ok",
-                verify_panics: w[4] == "panic",
+                verify_ok: w[4] == "ok" || w[4] == "slow",
+                verify_panics: w[4].starts_with("panic"),
                 trailer: w[5].parse().ok()?,
                 dest: match w[6] {
                     "old" => Dest::Old,
@@ -320,8 +350,10 @@ impl Script {
             logical
         };
         // a write the file system refuses makes the pull a failing one
-        match self.wfault {
-            Some(k) if content.len() as u64 > k => None,
+        match (self.wfault, self.dfault) {
+            (Some(k), _) if content.len() as u64 > k => None,
+            // a digest sink that refuses (or dies) while the content is fed to it fails the copy
+            (_, Some((k, _))) if self.puller.verifies() && content.len() as u64 > k => None,
             _ => Some(content),
         }
     }
@@ -411,9 +443,17 @@ fn answer(f: &RawFrame, reg: &Reg, ids: &AtomicU64, streams: &mut HashMap<u64, A
                 Open::Cut => Act::Close,
                 Open::Err if sess.open_flavour == 0 => frame(f.h.id, 6, 0, b"", 3, b"no such resource"),
                 o => {
-                    let id = ids.fetch_add(1, Ordering::Relaxed);
+                    let st = sess.script.style;
+                    // stream ids are opaque: also 0, u64::MAX, 2^63 (one live stream per connection here)
+                    let id = match (st >> 9) & 3 {
+                        0 => ids.fetch_add(1, Ordering::Relaxed),
+                        1 => 0,
+                        2 => u64::MAX,
+                        _ => 1 << 63,
+                    };
                     streams.insert(id, sess.clone());
-                    let mut r = OpenResp { version: 1, stream_id: id, format: if sess.script.beve { 1 } else { 0 }, compression: sess.script.zstd as u8 };
+                    let raw_fmt = [0u16, 2, 3, 999][((st >> 11) & 3) as usize];
+                    let mut r = OpenResp { version: 1, stream_id: id, format: if sess.script.beve { 1 } else { raw_fmt }, compression: sess.script.zstd as u8 };
                     if o == Open::Err {
                         if sess.open_flavour == 1 {
                             r.version = 2;
@@ -435,9 +475,18 @@ fn answer(f: &RawFrame, reg: &Reg, ids: &AtomicU64, streams: &mut HashMap<u64, A
                 *p += 1;
                 r
             };
+            let st = sess.script.style;
             match r {
-                Resp::Chunk(b, last) => frame(f.h.id, 0, 0, &[last as u8], 0, &b),
-                Resp::Error => frame(f.h.id, 9, 0, b"", 3, b"producer failed"),
+                Resp::Chunk(b, last) => {
+                    // `last` is "the first query byte is 1": every other query is a non-final chunk
+                    let q: &[u8] = if last { [&[1u8][..], &[1, 0], &[1, 9, 9]][((st >> 3) & 3) as usize % 3] } else { [&[0u8][..], &[], &[2], &[0, 1], &[255]][(st & 7) as usize % 5] };
+                    frame(f.h.id, 0, ((st >> 13) & 1) as u16, q, ((st >> 14) & 1) as u16, &b)
+                }
+                Resp::Error => {
+                    let ec = [9u32, 1, 5, 4096, 77, 3][((st >> 5) & 7) as usize % 6];
+                    let body: &[u8] = if (st >> 8) & 1 == 1 { &[0xff, 0xfe, 0x00, 0x80] } else { b"producer failed" };
+                    frame(f.h.id, ec, 0, b"", 3, body)
+                }
                 Resp::Cut => Act::Close,
             }
         }
@@ -551,6 +600,129 @@ fn rej() -> RepeError {
 }
 
 /// Call the real puller. `seen` records what the caller-supplied `verify` was handed.
+/// A digest sink that refuses (Err) or dies (panic) once more than `limit` bytes were fed to it.
+struct FaultyDigest {
+    buf: Vec<u8>,
+    limit: Option<(u64, bool)>,
+}
+impl Write for FaultyDigest {
+    fn write(&mut self, b: &[u8]) -> std::io::Result<usize> {
+        if let Some((n, pan)) = self.limit {
+            if (self.buf.len() + b.len()) as u64 > n {
+                if pan {
+                    std::panic::panic_any(DigestDied);
+                }
+                return Err(std::io::Error::other("digest sink refused"));
+            }
+        }
+        self.buf.extend_from_slice(b);
+        Ok(b.len())
+    }
+    fn flush(&mut self) -> std::io::Result<()> {
+        Ok(())
+    }
+}
+/// a panic payload that is neither a `String` nor a `&str`
+struct DigestDied;
+struct VerifyDied(#[allow(dead_code)] u64);
+
+/// A live client; sequences of pulls reuse one.
+enum Conn {
+    Sync(Client),
+    Async(AsyncClient),
+    Ws(repe::WebSocketClient),
+}
+impl Conn {
+    fn open(rt: &tokio::runtime::Runtime, p: Puller, addr: SocketAddr, ws: Option<SocketAddr>) -> Result<Conn, RepeError> {
+        Ok(match (p.is_async(), ws) {
+            (true, Some(wsa)) => Conn::Ws(rt.block_on(repe::WebSocketClient::connect(&format!("ws://{wsa}"))).map_err(RepeError::Io)?),
+            (true, None) => Conn::Async(rt.block_on(AsyncClient::connect(addr)).map_err(RepeError::Io)?),
+            (false, _) => Conn::Sync(Client::connect(addr).map_err(RepeError::Io)?),
+        })
+    }
+}
+
+#[derive(Clone, Copy, Default)]
+struct Knobs {
+    verify_ok: bool,
+    verify_kind: u8,
+    dfault: Option<(u64, bool)>,
+    via_ps: bool,
+}
+impl Knobs {
+    fn of(sc: &Script) -> Knobs {
+        Knobs { verify_ok: sc.verify_ok, verify_kind: sc.verify_kind, dfault: sc.dfault, via_ps: sc.via_ps }
+    }
+}
+
+fn verify_behaviour(k: Knobs) -> Result<(), RepeError> {
+    match k.verify_kind {
+        1 => panic!("{}", String::from("verify panics (String)")),
+        2 => std::panic::panic_any("verify panics (&'static str)"),
+        3 => std::panic::panic_any(VerifyDied(7)),
+        4 => std::thread::sleep(Duration::from_millis(40)),
+        _ => {}
+    }
+    if k.verify_ok { Ok(()) } else { Err(rej()) }
+}
+
+/// Call the real puller on `conn`. `seen` records what the caller-supplied `verify` was handed.
+fn call_on(rt: &tokio::runtime::Runtime, conn: &Conn, p: Puller, resource: &str, dest: &Path, trailer: usize, k: Knobs, seen: Arc<Mutex<Seen>>) -> Result<(), RepeError> {
+    use repe::value_stream::StreamOutput;
+    let v1 = {
+        let seen = seen.clone();
+        move |d: FaultyDigest| {
+            run_verify_hook();
+            {
+                let mut s = seen.lock().unwrap();
+                s.called = true;
+                s.digest = d.buf;
+            }
+            verify_behaviour(k)
+        }
+    };
+    let v2 = {
+        let seen = seen.clone();
+        move |d: FaultyDigest, t: &[u8]| {
+            run_verify_hook();
+            {
+                let mut s = seen.lock().unwrap();
+                s.called = true;
+                s.digest = d.buf;
+                s.trailer = t.to_vec();
+            }
+            verify_behaviour(k)
+        }
+    };
+    let dg = FaultyDigest { buf: vec![], limit: k.dfault };
+    match conn {
+        Conn::Ws(c) => rt.block_on(async move {
+            match p {
+                Puller::FileAsync => repe::pull_to_file_async(c, resource, dest).await.map(|_| ()),
+                Puller::VerifiedAsync => repe::pull_to_file_verified_async(c, resource, dest, dg, v1).await,
+                _ => repe::pull_to_file_trailer_verified_async(c, resource, dest, trailer, dg, v2).await,
+            }
+        }),
+        Conn::Async(c) => rt.block_on(async move {
+            match p {
+                Puller::FileAsync => repe::pull_to_file_async(c, resource, dest).await.map(|_| ()),
+                Puller::VerifiedAsync => repe::pull_to_file_verified_async(c, resource, dest, dg, v1).await,
+                _ => repe::pull_to_file_trailer_verified_async(c, resource, dest, trailer, dg, v2).await,
+            }
+        }),
+        Conn::Sync(c) => match (p, k.via_ps) {
+            (Puller::File, false) => repe::pull_to_file(c, resource, dest),
+            (Puller::BeveZst, false) => repe::pull_to_beve_zst_file(c, resource, dest),
+            (Puller::Beve, false) => repe::pull_to_beve_file(c, resource, dest),
+            (Puller::File, true) => repe::pull_stream::<()>(c, resource, StreamOutput::RawFile(dest)).map(|_| ()),
+            (Puller::BeveZst, true) => repe::pull_stream::<()>(c, resource, StreamOutput::BeveZstdFile(dest)).map(|_| ()),
+            (Puller::Beve, true) => repe::pull_stream::<()>(c, resource, StreamOutput::BeveFile(dest)).map(|_| ()),
+            _ => repe::pull_to_file_trailer_verified(c, resource, dest, trailer, dg, v2),
+        },
+    }
+}
+
+/// One pull on a fresh client.
 fn call_puller(
     rt: &tokio::runtime::Runtime,
     p: Puller,
@@ -558,59 +730,12 @@ fn call_puller(
     resource: &str,
     dest: &Path,
     trailer: usize,
-    verify_ok: bool,
+    k: Knobs,
     seen: Arc<Mutex<Seen>>,
     ws: Option<SocketAddr>,
 ) -> Result<(), RepeError> {
-    let v1 = {
-        let seen = seen.clone();
-        move |d: Vec<u8>| {
-            run_verify_hook();
-            let mut s = seen.lock().unwrap();
-            s.called = true;
-            s.digest = d;
-            if verify_ok { Ok(()) } else { Err(rej()) }
-        }
-    };
-    let v2 = {
-        let seen = seen.clone();
-        move |d: Vec<u8>, t: &[u8]| {
-            run_verify_hook();
-            let mut s = seen.lock().unwrap();
-            s.called = true;
-            s.digest = d;
-            s.trailer = t.to_vec();
-            if verify_ok { Ok(()) } else { Err(rej()) }
-        }
-    };
-    if let (true, Some(wsa)) = (p.is_async(), ws) {
-        return rt.block_on(async move {
-            let c = repe::WebSocketClient::connect(&format!("ws://{wsa}")).await.map_err(RepeError::Io)?;
-            match p {
-                Puller::FileAsync => repe::pull_to_file_async(&c, resource, dest).await.map(|_| ()),
-                Puller::VerifiedAsync => repe::pull_to_file_verified_async(&c, resource, dest, Vec::<u8>::new(), v1).await,
-                _ => repe::pull_to_file_trailer_verified_async(&c, resource, dest, trailer, Vec::<u8>::new(), v2).await,
-            }
-        });
-    }
-    if p.is_async() {
-        rt.block_on(async move {
-            let c = AsyncClient::connect(addr).await.map_err(RepeError::Io)?;
-            match p {
-                Puller::FileAsync => repe::pull_to_file_async(&c, resource, dest).await.map(|_| ()),
-                Puller::VerifiedAsync => repe::pull_to_file_verified_async(&c, resource, dest, Vec::<u8>::new(), v1).await,
-                _ => repe::pull_to_file_trailer_verified_async(&c, resource, dest, trailer, Vec::<u8>::new(), v2).await,
-            }
-        })
-    } else {
-        let c = Client::connect(addr).map_err(RepeError::Io)?;
-        match p {
-            Puller::File => repe::pull_to_file(&c, resource, dest),
-            Puller::BeveZst => repe::pull_to_beve_zst_file(&c, resource, dest),
-            Puller::Beve => repe::pull_to_beve_file(&c, resource, dest),
-            _ => repe::pull_to_file_trailer_verified(&c, resource, dest, trailer, Vec::<u8>::new(), v2),
-        }
-    }
+    let conn = Conn::open(rt, p, addr, ws)?;
+    call_on(rt, &conn, p, resource, dest, trailer, k, seen)
 }
 
 fn child_main(a: &[String]) -> ! {
@@ -631,7 +756,7 @@ fn child_main(a: &[String]) -> ! {
     let addr: SocketAddr = a[1].parse().expect("addr");
     let rt = tokio::runtime::Builder::new_current_thread().enable_all().build().unwrap();
     let seen = Arc::new(Mutex::new(Seen::default()));
-    let r = call_puller(&rt, p, addr, &a[2], Path::new(&a[3]), a[4].parse().unwrap(), a[5] == "ok", seen.clone(), None);
+    let r = call_puller(&rt, p, addr, &a[2], Path::new(&a[3]), a[4].parse().unwrap(), Knobs { verify_ok: a[5] == "ok", ..Knobs::default() }, seen.clone(), None);
     let mut o = std::io::stdout();
     let sn = seen.lock().unwrap().clone();
     let _ = writeln!(o, "ret {} seen {} trailer {}", if r.is_ok() { "ok" } else { "err" }, digest(&sn.digest), hex(&sn.trailer));
@@ -766,7 +891,7 @@ fn oracles(out: &mut Out, sc: &Script, o: &Obs, op: &str) {
     }
     // a pull that fails before it creates its temp file cannot be blamed for a stale one
     let never_created = sc.open != Open::Ok || !sc.puller.tags_ok(sc.zstd, sc.beve) || sc.dest == Dest::NoParent;
-    if o.panicked && !sc.verify_panics {
+    if o.panicked && !(sc.verify_panics || matches!(sc.dfault, Some((_, true))) || sc.trailer > isize::MAX as usize) {
         out.oracle_fail(&format!("commit.{p}.panic"), "the pull panicked although no caller-supplied code does", &ops);
     }
     if o.tmp && !(sc.dest.stale() && never_created) {
@@ -832,11 +957,7 @@ impl Ctx {
         let dest = prepare_sc(&dir, sc);
         let seen = Arc::new(Mutex::new(Seen::default()));
         let ws = if sc.ws { self.fake.ws_addr } else { None };
-        if sc.verify_panics {
-            *VERIFY_HOOK.lock().unwrap() = Some(Box::new(|| panic!("verify panics")));
-        }
-        let r = catch(|| call_puller(&self.rt, sc.puller, addr, resource, &dest, sc.trailer, sc.verify_ok, seen.clone(), ws));
-        *VERIFY_HOOK.lock().unwrap() = None;
+        let r = catch(|| call_puller(&self.rt, sc.puller, addr, resource, &dest, sc.trailer, Knobs::of(sc), seen.clone(), ws));
         let panicked = r.is_err();
         let r = r.unwrap_or_else(|_| Err(rej()));
         let o = Obs { panicked, ok: r.is_ok(), dest: dest_state(&dest, sc.dest), tmp: tmp_present(&dest), seen: seen.lock().unwrap().clone() };
@@ -855,11 +976,25 @@ impl Ctx {
             return self.exec_wfault(out, idx, sc, &op, flavour);
         }
         let (name, _) = self.fresh();
+        // resource keys are opaque strings: non-ASCII, separators, very long
+        let name = match (sc.style >> 15) & 7 {
+            1 => format!("r\u{e9}s/\u{4e2d}\u{6587} {name}"),
+            2 => format!("{}{name}", "x".repeat(5000)),
+            3 => format!("/_svs/open/{name}?a=b#c"),
+            4 => format!("{name}\u{0}\n"),
+            _ => name,
+        };
         self.fake.register(&name, sc, flavour);
         let o = self.run_inproc(sc, self.fake.addr, &name);
         self.fake.unregister(&name);
         oracles(out, sc, &o, &op);
         count_case(out, sc, "script");
+        if sc.style != 0 {
+            out.count("script.style.nonzero");
+        }
+        if sc.via_ps {
+            out.count("script.entry.pull_stream");
+        }
         out.case(&op, &obs_line(idx, sc, &o), nontrivial(sc));
     }
 
@@ -918,7 +1053,7 @@ impl Ctx {
             *l2.lock().unwrap() = v;
         }));
         let seen = Arc::new(Mutex::new(Seen::default()));
-        let r = call_puller(&self.rt, Puller::Trailer, self.fake.addr, &res, &dest, 7, true, seen, None);
+        let r = call_puller(&self.rt, Puller::Trailer, self.fake.addr, &res, &dest, 7, Knobs { verify_ok: true, ..Knobs::default() }, seen, None);
         self.fake.unregister(&res);
         *VERIFY_HOOK.lock().unwrap() = None;
         let l = listing.lock().unwrap().clone();
@@ -951,13 +1086,13 @@ impl Ctx {
                 // a blocking pull on a plain thread (never a nested block_on)
                 let h = std::thread::spawn(move || {
                     let rt = tokio::runtime::Builder::new_current_thread().enable_all().build().unwrap();
-                    call_puller(&rt, b.puller, addr, &rb, &db, b.trailer, b.verify_ok, Arc::new(Mutex::new(Seen::default())), None).is_ok()
+                    call_puller(&rt, b.puller, addr, &rb, &db, b.trailer, Knobs::of(&b), Arc::new(Mutex::new(Seen::default())), None).is_ok()
                 });
                 *bres.lock().unwrap() = h.join().ok();
             }));
         }
         let seen = Arc::new(Mutex::new(Seen::default()));
-        let r = call_puller(&self.rt, a.puller, self.fake.addr, &ra, &da, a.trailer, a.verify_ok, seen.clone(), None);
+        let r = call_puller(&self.rt, a.puller, self.fake.addr, &ra, &da, a.trailer, Knobs::of(a), seen.clone(), None);
         *VERIFY_HOOK.lock().unwrap() = None;
         self.fake.unregister(&ra);
         self.fake.unregister(&rb);
@@ -972,6 +1107,101 @@ impl Ctx {
         oracles(out, b, &Obs { seen: Seen::default(), ..ob_clone(&ob) }, &op);
         out.count("nest.pairs");
         let line = format!("{idx} A ret {} dest {} tmp {} B ret {} dest {} tmp {}", if oa.ok { "ok" } else { "err" }, show_dest(&oa.dest), oa.tmp as u8, if ob.ok { "ok" } else { "err" }, show_dest(&ob.dest), ob.tmp as u8);
+        out.case(&op, &line, true);
+    }
+}
+
+/// Does the pull of this script run into the connection cut (so that the client is dead afterwards)?
+fn hits_cut(sc: &Script) -> bool {
+    if sc.open == Open::Cut {
+        return true;
+    }
+    if sc.open != Open::Ok || !sc.puller.tags_ok(sc.zstd, sc.beve) {
+        return false;
+    }
+    for r in &sc.wire {
+        match r {
+            Resp::Chunk(_, false) => continue,
+            Resp::Chunk(_, true) | Resp::Error => return false,
+            Resp::Cut => return true,
+        }
+    }
+    true // the answers run out: the peer closes
+}
+
+impl Ctx {
+    /// `seq <i> <old:H|none> SCRIPT :: SCRIPT :: …`: several pulls through ONE client into ONE destination.
+    /// Each must behave as on a fresh client in the same abstract state: destination = what the previous
+    /// steps left, connection = alive unless an earlier step ran into a cut (then every call fails).
+    fn exec_seq(&mut self, out: &mut Out, idx: &str, old: bool, steps: &[Script], same_resource: bool) {
+        let op = format!("seq {} {} {}", idx, if old { format!("old:{}", hex(OLD)) } else { "none".into() }, steps.iter().map(|s| s.words()).collect::<Vec<_>>().join(" :: "));
+        out.begin(&op);
+        let (base, dir) = self.fresh();
+        let dest = prepare(&dir, if old { Dest::Old } else { Dest::None });
+        let names: Vec<String> = (0..steps.len()).map(|i| if same_resource { base.clone() } else { format!("{base}-{i}") }).collect();
+        let (fake, addr, ws) = (self.fake.clone(), self.fake.addr, if steps[0].ws { self.fake.ws_addr } else { None });
+        let (steps2, dest2, names2) = (steps.to_vec(), dest.clone(), names.clone());
+        let (tx, rx) = std::sync::mpsc::channel();
+        // on its own thread with its own runtime: a call on a dead client must fail, but if it hung it
+        // must not hang the harness (promptness is another property's business)
+        std::thread::spawn(move || {
+            let rt = tokio::runtime::Builder::new_multi_thread().worker_threads(1).enable_all().build().unwrap();
+            let mut res: Vec<(bool, bool, Option<Vec<u8>>, bool)> = vec![];
+            let conn = Conn::open(&rt, steps2[0].puller, addr, ws);
+            for (i, sc) in steps2.iter().enumerate() {
+                fake.register(&names2[i], sc, 0);
+                let r = match &conn {
+                    Ok(c) => catch(|| call_on(&rt, c, sc.puller, &names2[i], &dest2, sc.trailer, Knobs::of(sc), Arc::new(Mutex::new(Seen::default())))),
+                    Err(_) => Ok(Err(rej())),
+                };
+                let panicked = r.is_err();
+                let ok = matches!(r, Ok(Ok(())));
+                res.push((panicked, ok, std::fs::read(&dest2).ok(), tmp_present(&dest2)));
+                let _ = tx.send(res.clone());
+            }
+        });
+        let mut res = vec![];
+        let t0 = Instant::now();
+        while res.len() < steps.len() && t0.elapsed() < Duration::from_secs(40) {
+            if let Ok(r) = rx.recv_timeout(Duration::from_millis(200)) {
+                res = r;
+            }
+        }
+        for n in &names {
+            self.fake.unregister(n);
+        }
+        if res.len() < steps.len() {
+            out.count("seq.did-not-finish(a call on a dead client hung?)");
+            return;
+        }
+        let _ = std::fs::remove_dir_all(&dir);
+        // the abstract state, threaded by the harness from the scripts alone
+        let mut cur: Option<Vec<u8>> = if old { Some(OLD.to_vec()) } else { None };
+        let mut alive = true;
+        let mut line = idx.to_string();
+        for (i, sc) in steps.iter().enumerate() {
+            let (panicked, ok, got, tmp) = &res[i];
+            let exp = if alive { sc.expected_content() } else { None };
+            if let Some(c) = &exp {
+                cur = Some(c.clone());
+            }
+            let p = sc.puller.name();
+            if *ok != exp.is_some() || *got != cur || *tmp {
+                out.oracle_fail(
+                    &format!("commit.seq.{p}.step-differs-from-fresh-client"),
+                    &format!("step {} of a sequence on one client (connection {}): returned {}, destination {:?}, temp file {}; a fresh client in the same state gives {} and destination {:?}", i + 1, if alive { "alive" } else { "dead after an earlier cut" }, if *ok { "Ok" } else { "Err" }, got.as_ref().map(|b| digest(b)), tmp, if exp.is_some() { "Ok" } else { "Err" }, cur.as_ref().map(|b| digest(b))),
+                    &[op.clone()],
+                );
+            }
+            line.push_str(&format!(" | ret {} dest {} tmp {}", if *panicked { "panic" } else if *ok { "ok" } else { "err" }, got.as_ref().map(|b| digest(b)).unwrap_or("absent".into()), *tmp as u8));
+            if alive && hits_cut(sc) {
+                alive = false;
+            }
+        }
+        out.count(&format!("seq.len.{}", steps.len()));
+        if !alive {
+            out.count("seq.with-dead-connection-tail");
+        }
         out.case(&op, &line, true);
     }
 }
@@ -1030,6 +1260,7 @@ struct FailingReader {
     fail_at: Option<usize>,
     /// die with a panic instead of returning an error
     panics: bool,
+    slow: bool,
 }
 
 /// A value whose `Serialize` impl panics when it reaches element `at` (a dying producer body).
@@ -1068,6 +1299,9 @@ impl Read for FailingReader {
             }
             return Ok(0);
         }
+        if self.slow {
+            std::thread::sleep(Duration::from_millis(2));
+        }
         // small reads so that the sink sees many write sizes
         let n = out.len().min(limit - self.pos).min(7);
         out[..n].copy_from_slice(&self.data[self.pos..self.pos + n]);
@@ -1087,11 +1321,15 @@ struct Real {
     fail: Option<usize>,
     depth: usize,
     payload: Vec<u8>,
+    /// `StreamOpts::zstd_level`
+    level: i32,
+    /// the producer body pauses between its writes / reads
+    slow: bool,
 }
 
 fn start_real(r: &Real, zstd: bool) -> SocketAddr {
-    let opts = StreamOpts { chunk_bytes: r.chunk, compression: if zstd { Compression::Zstd } else { Compression::None }, zstd_level: 3, session_depth: r.depth };
-    let (payload, fail, panics) = (r.payload.clone(), r.fail, r.panics);
+    let opts = StreamOpts { chunk_bytes: r.chunk, compression: if zstd { Compression::Zstd } else { Compression::None }, zstd_level: r.level, session_depth: r.depth };
+    let (payload, fail, panics, slow) = (r.payload.clone(), r.fail, r.panics, r.slow);
     let router = if r.kind == 2 {
         Router::new().with_value_stream(move |res: &str| (res == "blob").then(|| PanicSeq { data: payload.clone(), at: fail }), opts)
     } else if r.kind == 1 {
@@ -1104,6 +1342,10 @@ fn start_real(r: &Real, zstd: bool) -> SocketAddr {
                         let n = fail.unwrap_or(payload.len()).min(payload.len());
                         for piece in payload[..n].chunks(5) {
                             w.write_all(piece)?;
+                            if slow {
+                                std::thread::sleep(Duration::from_millis(2));
+                                w.flush()?;
+                            }
                         }
                         if fail.is_some() && panics {
                             panic!("writer body panics");
@@ -1115,7 +1357,7 @@ fn start_real(r: &Real, zstd: bool) -> SocketAddr {
             opts,
         )
     } else {
-        Router::new().with_reader_stream(move |res: &str| (res == "blob").then(|| FailingReader { data: payload.clone(), pos: 0, fail_at: fail, panics }), opts)
+        Router::new().with_reader_stream(move |res: &str| (res == "blob").then(|| FailingReader { data: payload.clone(), pos: 0, fail_at: fail, panics, slow }), opts)
     };
     let server = Server::new(router);
     let l = server.listen("127.0.0.1:0").expect("bind");
@@ -1168,7 +1410,7 @@ impl Ctx {
         let op = format!(
             "real {} {} {} {} {} {} {}",
             idx,
-            ["reader", "writer", "value"][r.kind as usize],
+            format!("{}@l{}{}", ["reader", "writer", "value"][r.kind as usize], r.level, if r.slow { "@slow" } else { "" }),
             r.chunk,
             r.fail.map(|n| format!("{}{}", if r.panics { "p" } else { "" }, n)).unwrap_or("-".into()),
             r.depth,
@@ -1469,7 +1711,14 @@ impl Ctx {
 // value-decoding pulls
 // ------------------------------------------------------------------------------------------
 impl Ctx {
-    fn exec_value(&mut self, out: &mut Out, idx: &str, asyn: bool, sc: &Script, need: usize) {
+    /// Value-returning pulls. `mode`: sync | async (pull_value[_async]), stream (pull_stream::<T>(Value)),
+    /// vec[async] (pull_to_vec[_async]), typed[async] / complex[async] (bulk slice pullers),
+    /// consume[async] / consumeerr[async] / consumepanic[async] (pull_consume[_async] with a consumer that reads
+    /// to the end and returns the bytes / then returns Err / panics on entry).
+    fn exec_value(&mut self, out: &mut Out, idx: &str, mode: &str, sc: &Script, need: usize) {
+        let asyn = mode.ends_with("async");
+        let base = mode.trim_end_matches("async");
+        let base = if base.is_empty() { "sync" } else { base };
         // logical bytes that reach the value decoder before the stream ends or breaks
         let mut delivered_wire = vec![];
         for r in &sc.wire {
@@ -1487,7 +1736,7 @@ impl Ctx {
         let op = format!(
             "value {} {} {} {} {} need {} {} wire {}",
             idx,
-            if asyn { "async" } else { "sync" },
+            mode,
             if sc.zstd { "zstd" } else { "none" },
             if sc.beve { "beve" } else { "raw" },
             match sc.open { Open::Ok => "ok", Open::Err => "err", Open::Cut => "cut" },
@@ -1499,34 +1748,62 @@ impl Ctx {
         let (name, _) = self.fresh();
         self.fake.register(&name, sc, 0);
         let addr = self.fake.addr;
-        let r: Result<Vec<u8>, RepeError> = if asyn {
-            let n = name.clone();
-            self.rt.block_on(async move {
-                let c = AsyncClient::connect(addr).await.map_err(RepeError::Io)?;
-                repe::pull_value_async::<Vec<u8>, _>(&c, &n).await
-            })
-        } else {
-            Client::connect(addr).map_err(RepeError::Io).and_then(|c| repe::pull_value::<Vec<u8>>(&c, &name))
+        let rt = &self.rt;
+        // every mode ends in "the encoded bytes of what was returned"
+        let enc_f64 = |v: &Vec<f64>| { let mut b = vec![]; let _ = beve::to_writer_typed_slice(&mut b, v); b };
+        let enc_cpx = |v: &Vec<repe::Complex<f32>>| { let mut b = vec![]; let _ = beve::to_writer_complex_slice(&mut b, v); b };
+        let read_all = |r: &mut dyn Read| -> Result<Vec<u8>, RepeError> { let mut b = vec![]; r.read_to_end(&mut b)?; Ok(b) };
+        let call = || -> Result<Vec<u8>, RepeError> {
+            if asyn {
+                let n = name.clone();
+                rt.block_on(async move {
+                    let c = AsyncClient::connect(addr).await.map_err(RepeError::Io)?;
+                    match base {
+                        "sync" => repe::pull_value_async::<Vec<u8>, _>(&c, &n).await.map(|v| beve::to_vec(&v).unwrap_or_default()),
+                        "vec" => repe::pull_to_vec_async(&c, &n).await,
+                        "typed" => repe::pull_typed_slice_async::<f64, _>(&c, &n).await.map(|v| enc_f64(&v)),
+                        "complex" => repe::pull_complex_slice_async::<f32, _>(&c, &n).await.map(|v| enc_cpx(&v)),
+                        "consume" => repe::pull_consume_async(&c, &n, |mut r| { let mut b = vec![]; r.read_to_end(&mut b)?; Ok(b) }).await,
+                        "consumeerr" => repe::pull_consume_async(&c, &n, |mut r| { let mut b = vec![]; r.read_to_end(&mut b)?; Err::<Vec<u8>, _>(rej()) }).await,
+                        _ => repe::pull_consume_async(&c, &n, |_r| -> Result<Vec<u8>, RepeError> { std::panic::panic_any(VerifyDied(1)) }).await,
+                    }
+                })
+            } else {
+                let c = Client::connect(addr).map_err(RepeError::Io)?;
+                match base {
+                    "sync" => repe::pull_value::<Vec<u8>>(&c, &name).map(|v| beve::to_vec(&v).unwrap_or_default()),
+                    "stream" => repe::pull_stream::<Vec<u8>>(&c, &name, repe::value_stream::StreamOutput::Value).map(|v| beve::to_vec(&v.unwrap_or_default()).unwrap_or_default()),
+                    "vec" => repe::pull_to_vec(&c, &name),
+                    "typed" => repe::pull_typed_slice::<f64>(&c, &name).map(|v| enc_f64(&v)),
+                    "complex" => repe::pull_complex_slice::<f32>(&c, &name).map(|v| enc_cpx(&v)),
+                    "consume" => repe::pull_consume(&c, &name, |r| read_all(r)),
+                    "consumeerr" => repe::pull_consume(&c, &name, |r| read_all(r).and_then(|_| Err::<Vec<u8>, _>(rej()))),
+                    _ => repe::pull_consume(&c, &name, |_r| -> Result<Vec<u8>, RepeError> { panic!("consumer panics") }),
+                }
+            }
         };
+        let r = catch(call);
         self.fake.unregister(&name);
-        let whole = sc.open == Open::Ok && sc.beve && sc.payload().is_some();
-        let m = if asyn { "async" } else { "sync" };
+        let to_end = matches!(base, "vec" | "consume" | "consumeerr" | "consumepanic"); // no format constraint, reads to EOF
+        let whole = sc.open == Open::Ok && (sc.beve || to_end) && sc.payload().is_some();
+        let m = mode;
         let obs = match &r {
-            Ok(v) => {
-                let enc = beve::to_vec(v).unwrap_or_default();
-                if sc.open != Open::Ok || delivered.len() < need {
+            Err(_) => format!("{idx} ret panic"),
+            Ok(Ok(enc)) => {
+                let enough = if to_end { whole } else { delivered.len() >= need };
+                if sc.open != Open::Ok || !enough {
                     out.oracle_fail(
                         &format!("commit.value.{m}.value-from-truncated-stream"),
-                        &format!("a value of {} elements was returned although only {} of the {} bytes of its encoding arrived", v.len(), delivered.len(), need),
+                        &format!("a value ({} encoded bytes) was returned although only {} bytes arrived (needed {}, stream whole: {})", enc.len(), delivered.len(), need, whole),
                         &[op.clone()],
                     );
-                } else if enc != delivered[..need] {
+                } else if (to_end && *enc != delivered) || (!to_end && enc[..] != delivered[..need]) {
                     out.oracle_fail(&format!("commit.value.{m}.wrong-value"), "the returned value is not the one that was streamed", &[op.clone()]);
                 }
-                format!("{idx} ret ok {}", digest(&enc))
+                format!("{idx} ret ok {}", digest(enc))
             }
-            Err(_) => {
-                if whole && delivered.len() >= need {
+            Ok(Err(_)) => {
+                if whole && (to_end || delivered.len() >= need) && base != "consumeerr" && base != "consumepanic" {
                     out.oracle_fail(&format!("commit.value.{m}.err-on-complete-stream"), "the whole stream arrived and decodes, but the pull returned Err", &[op.clone()]);
                 }
                 format!("{idx} ret err")
@@ -1556,8 +1833,10 @@ fn zstd_partial(input: &[u8]) -> Vec<u8> {
 // ------------------------------------------------------------------------------------------
 // generation
 // ------------------------------------------------------------------------------------------
+/// zstd level used for the next scripted compressed streams (the bytes go on the op line, so a replay is exact)
+static ZSTD_LEVEL: std::sync::atomic::AtomicI32 = std::sync::atomic::AtomicI32::new(3);
 fn zstd_of(b: &[u8]) -> Vec<u8> {
-    zstd::encode_all(b, 3).expect("zstd")
+    zstd::encode_all(b, ZSTD_LEVEL.load(Ordering::Relaxed)).expect("zstd")
 }
 
 /// Build the wire for producer chunks `cs`: `k = None` = complete (last on the final data chunk or on a
@@ -1598,7 +1877,7 @@ fn make_script(p: Puller, zstd: bool, logical: &[u8], sizes: &[usize], fault: Op
     let wire_bytes = if zstd { zstd_of(logical) } else { logical.to_vec() };
     let cs = split_at_sizes(&wire_bytes, sizes);
     let wire = wire_of(&cs, fault, last_on_empty);
-    let mut sc = Script { puller: p, zstd, beve: true, open: Open::Ok, verify_ok: true, trailer: 0, dest: Dest::None, dec: Dec::Na, wire, wfault: None, sync_fault: false, ws: false, verify_panics: false };
+    let mut sc = Script { puller: p, zstd, beve: true, open: Open::Ok, verify_ok: true, trailer: 0, dest: Dest::None, dec: Dec::Na, wire, wfault: None, sync_fault: false, ws: false, verify_panics: false, verify_kind: 0, dfault: None, via_ps: false, style: 0 };
     sc.dec = dec_for(&sc);
     sc
 }
@@ -1758,6 +2037,7 @@ fn gen_and_run(args: &Args, out: &mut Out, ctx: &mut Ctx) {
                 sc.trailer = if p.has_trailer() { 4 } else { 0 };
                 sc.verify_ok = false;
                 sc.verify_panics = true;
+                sc.verify_kind = 1 + rng.below(3) as u8;
                 ctx.exec_script(out, &next("s"), &sc, 0);
             }
         }
@@ -1796,11 +2076,56 @@ fn gen_and_run(args: &Args, out: &mut Out, ctx: &mut Ctx) {
         }
     }
 
+    // (S) sequences: 3-5 pulls through one client into one destination, mixing pullers of the same
+    //     transport, complete and failing streams, rejected verification, a cut in the middle (dead client)
+    let nseq = if thorough { 120 } else { 36 };
+    for j in 0..nseq {
+        let class = j % 3; // 0 blocking, 1 async TCP, 2 async WebSocket
+        let ps: &[Puller] = if class == 0 { &[Puller::File, Puller::Trailer, Puller::Beve, Puller::BeveZst] } else { &[Puller::FileAsync, Puller::VerifiedAsync, Puller::TrailerAsync] };
+        let len = 3 + rng.below(3) as usize;
+        let cut_at = if rng.chance(1, 2) { Some(rng.below(len as u64) as usize) } else { None };
+        let mut steps = vec![];
+        for i in 0..len {
+            let p = *rng.pick(ps);
+            let zstd = p == Puller::Beve || p == Puller::BeveZst || rng.chance(1, 3);
+            let ln = 1 + rng.below(60) as usize;
+            let logical: Vec<u8> = rng.bytes(ln);
+            let sizes = [1 + rng.below(20) as usize, 1 + rng.below(20) as usize];
+            let nch = split_at_sizes(&if zstd { zstd_of(&logical) } else { logical.clone() }, &sizes).len();
+            let fault = if cut_at == Some(i) {
+                Some((rng.below(nch as u64 + 1) as usize, Resp::Cut))
+            } else if rng.chance(1, 3) {
+                Some((rng.below(nch as u64 + 1) as usize, Resp::Error))
+            } else {
+                None
+            };
+            let mut sc = make_script(p, zstd, &logical, &sizes, fault, rng.chance(1, 2));
+            sc.ws = class == 2;
+            sc.trailer = if p.has_trailer() { rng.below(ln as u64 + 2) as usize } else { 0 };
+            sc.verify_ok = !rng.chance(1, 4);
+            if rng.chance(1, 8) {
+                sc.open = Open::Err;
+            }
+            if cut_at == Some(i) && rng.chance(1, 4) {
+                sc.open = Open::Cut;
+            }
+            sc.style = rng.next() & 0x7fff;
+            steps.push(sc);
+        }
+        let old = rng.chance(1, 2);
+        for sc in steps.iter_mut() {
+            sc.dest = if old { Dest::Old } else { Dest::None };
+        }
+        let same = rng.chance(1, 2);
+        ctx.exec_seq(out, &next("q"), old, &steps, same);
+    }
+
     // (B) random scripts: sizes around io::copy's 8 KiB buffer, empty chunks, mixed write sizes for TrailerHold
     let nrand = if thorough { 1500 } else { 260 };
     for _ in 0..nrand {
         let p = *rng.pick(&PULLERS);
         let zstd = rng.chance(1, 3);
+        ZSTD_LEVEL.store(*rng.pick(&[1, 3, 3, 7, 19, -3]), Ordering::Relaxed);
         let n = match rng.below(10) {
             0 => 1,
             1 => 8192,
@@ -1838,9 +2163,120 @@ fn gen_and_run(args: &Args, out: &mut Out, ctx: &mut Ctx) {
         if rng.chance(1, 25) {
             sc.open = *rng.pick(&[Open::Err, Open::Cut]);
         }
+        if rng.chance(2, 3) {
+            sc.style = rng.next() & 0x3ffff;
+        }
+        sc.via_ps = !p.is_async() && !p.has_trailer() && rng.chance(1, 2);
+        if p.verifies() && rng.chance(1, 6) {
+            sc.verify_kind = 4; // slow verify
+        }
         let fl = rng.below(3) as u8;
         ctx.exec_script(out, &next("s"), &sc, fl);
     }
+    ZSTD_LEVEL.store(3, Ordering::Relaxed);
+
+    // (B') boundary values of the caller's parameters and of the stream: empty streams, zero bytes in the
+    //      content, trailer_len 0 / huge / usize::MAX, every verify flavour, a digest sink that refuses or dies
+    for &p in &PULLERS {
+        for zstd in [false, true] {
+            if !p.tags_ok(zstd, true) {
+                continue;
+            }
+            ZSTD_LEVEL.store(*rng.pick(&[1, 3, 9, 19, -5]), Ordering::Relaxed);
+            // the empty stream: one empty `last` chunk, or an error / cut straight away
+            if !zstd {
+                for (fault, dest) in [(None, Dest::None), (None, Dest::Old), (Some((0usize, Resp::Error)), Dest::Old), (Some((0usize, Resp::Cut)), Dest::None)] {
+                    let mut sc = make_script(p, false, &[], &[4], fault, true);
+                    sc.dest = dest;
+                    sc.style = rng.next() & 0x3ffff;
+                    ctx.exec_script(out, &next("b"), &sc, 0);
+                }
+            }
+            // content with zero bytes and long runs
+            let ln = 40 + rng.below(40) as usize;
+            let mut logical: Vec<u8> = rng.bytes(ln);
+            for j in 0..logical.len() {
+                if j % 3 == 0 {
+                    logical[j] = 0;
+                }
+            }
+            let n = logical.len();
+            let mk = |rng: &mut Rng, fault: Option<(usize, Resp)>| {
+                let mut sc = make_script(p, zstd, &logical, &[17, 5, 23], fault, rng.chance(1, 2));
+                sc.dest = *rng.pick(&[Dest::None, Dest::Old]);
+                sc.style = rng.next() & 0x3ffff;
+                sc.via_ps = !p.is_async() && !p.has_trailer() && rng.chance(1, 2);
+                sc
+            };
+            let sc = mk(&mut rng, None);
+            ctx.exec_script(out, &next("b"), &sc, 0);
+            if p.has_trailer() {
+                for t in [0usize, 1, n, 1 << 20, usize::MAX] {
+                    for vok in [true, false] {
+                        let mut sc = mk(&mut rng, None);
+                        sc.trailer = t;
+                        sc.verify_ok = vok;
+                        ctx.exec_script(out, &next("b"), &sc, 0);
+                    }
+                }
+            }
+            if zstd {
+                // a compressed stream made of several zstd frames back to back decodes to their concatenation
+                let cut = n / 3;
+                let mut wb = zstd_of(&logical[..cut]);
+                ZSTD_LEVEL.store(*rng.pick(&[1, 19]), Ordering::Relaxed);
+                wb.extend_from_slice(&zstd_of(&logical[cut..]));
+                for loe in [false, true] {
+                    let mut sc = make_script(p, false, &wb, &[13, 29], None, loe);
+                    sc.zstd = true;
+                    sc.dec = dec_for(&sc);
+                    sc.dest = *rng.pick(&[Dest::None, Dest::Old]);
+                    sc.trailer = if p.has_trailer() { 2 } else { 0 };
+                    ctx.exec_script(out, &next("b"), &sc, 0);
+                }
+            }
+            if p.has_trailer() {
+                // trailers longer than any internal buffer (8 KiB, 64 KiB) inside a stream that is longer still
+                let big = gen_bytes(5 + zstd as u8, 70_000 + rng.below(100) as usize);
+                for t in [8192usize, 65535, 65536, 65537, 69_000] {
+                    let mut sc = make_script(p, zstd, &big, &[30_000, 9_000], None, rng.chance(1, 2));
+                    sc.dest = *rng.pick(&[Dest::None, Dest::Old]);
+                    sc.trailer = t;
+                    ctx.exec_script(out, &next("b"), &sc, 0);
+                }
+            }
+            if p.verifies() {
+                for kind in 1..=4u8 {
+                    for fault in [None, Some((1usize, Resp::Error))] {
+                        let mut sc = mk(&mut rng, fault);
+                        sc.trailer = if p.has_trailer() { 3 } else { 0 };
+                        sc.verify_kind = kind;
+                        sc.verify_panics = kind <= 3;
+                        sc.verify_ok = kind == 4;
+                        ctx.exec_script(out, &next("b"), &sc, 0);
+                    }
+                }
+                let tr = if p.has_trailer() { 3 } else { 0 };
+                let w = n - tr;
+                for lim in [0u64, 1, 16, 17, w as u64 - 1, w as u64, w as u64 + 1] {
+                    for pan in [false, true] {
+                        let mut sc = mk(&mut rng, None);
+                        sc.trailer = tr;
+                        sc.dfault = Some((lim, pan));
+                        ctx.exec_script(out, &next("b"), &sc, 0);
+                    }
+                }
+                // … combined with a stream that breaks before / after the sink does
+                for k in [1usize, 2] {
+                    let mut sc = mk(&mut rng, Some((k, Resp::Cut)));
+                    sc.trailer = tr;
+                    sc.dfault = Some((20, rng.chance(1, 2)));
+                    ctx.exec_script(out, &next("b"), &sc, 0);
+                }
+            }
+        }
+    }
+    ZSTD_LEVEL.store(3, Ordering::Relaxed);
 
     // (C) the crate's own Server with failing reader / writer producers: failure after every chunk
     //     boundary +-1 byte
@@ -1880,9 +2316,9 @@ fn gen_and_run(args: &Args, out: &mut Out, ctx: &mut Ctx) {
                 };
                 for (kind, panics) in modes {
                 let fk = if kind == 2 { f.map(|n| n / 2) } else { f };
-                let r = Real { kind, panics, chunk, fail: fk, depth: rng.below(5) as usize, payload: if kind == 2 { payload[..payload.len() / 2].to_vec() } else { payload.clone() } };
+                let r = Real { kind, panics, chunk, fail: fk, depth: rng.below(5) as usize, payload: if kind == 2 { payload[..payload.len() / 2].to_vec() } else { payload.clone() }, level: 3, slow: false };
                 let (wire, dec) = real_wire(&r, zstd);
-                let mut sc = Script { puller: p, zstd, beve: kind == 2, open: Open::Ok, verify_ok: true, trailer: if p.has_trailer() { 8 } else { 0 }, dest: *rng.pick(&[Dest::None, Dest::Old]), dec, wire, wfault: None, sync_fault: false, ws: false, verify_panics: false };
+                let mut sc = Script { puller: p, zstd, beve: kind == 2, open: Open::Ok, verify_ok: true, trailer: if p.has_trailer() { 8 } else { 0 }, dest: *rng.pick(&[Dest::None, Dest::Old]), dec, wire, wfault: None, sync_fault: false, ws: false, verify_panics: false, verify_kind: 0, dfault: None, via_ps: false, style: 0 };
                 if p.verifies() && f.is_none() && rng.chance(1, 3) {
                     sc.verify_ok = false;
                 }
@@ -1893,16 +2329,51 @@ fn gen_and_run(args: &Args, out: &mut Out, ctx: &mut Ctx) {
         }
     }
 
-    // (D) value-decoding pulls: the value spans the whole stream, truncated at every k
-    for asyn in [false, true] {
+    // (C') the producer-side knobs (`StreamOpts`): chunk sizes 1 … 1 MiB, zstd levels, channel depths 0 … 64,
+    //      payload lengths 0, 1 and around a chunk, slow producers; also the `.beve` puller on a compressed
+    //      value stream
+    let mut real_all = real_pullers.clone();
+    real_all.push(Puller::Beve);
+    for &(chunk, len) in &[(1usize, 0usize), (1, 1), (1, 9), (2, 5), (7, 6), (7, 7), (7, 8), (7, 30), (4096, 4095), (4096, 4097), (4096, 10000), (1 << 20, 0), (1 << 20, 300)] {
+        for &p in &real_all {
+            if !thorough && rng.chance(1, 2) {
+                continue;
+            }
+            let kind: u8 = if p == Puller::Beve { 2 } else { rng.below(3) as u8 };
+            // (an empty compressed content cannot be written on the op line)
+            let zstd = p == Puller::Beve || (rng.chance(1, 3) && (len > 0 || kind == 2));
+            let data: Vec<u8> = rng.bytes(if kind == 2 { len.min(300) } else { len });
+            let fail = if len > 0 && rng.chance(1, 2) { Some(*rng.pick(&[0usize, 1, chunk.min(len) - 1, chunk.min(len), len - 1]).min(&data.len().saturating_sub(1))) } else { None };
+            let r = Real { kind, panics: fail.is_some() && rng.chance(1, 2), chunk, fail, depth: *rng.pick(&[0usize, 1, 2, 64]), payload: data, level: *rng.pick(&[1, 3, 19, -7]), slow: len <= 30 && rng.chance(1, 3) };
+            let (wire, dec) = real_wire(&r, zstd);
+            let stream_len = if kind == 2 { panic_seq_bytes(&r.payload).len() } else { r.payload.len() };
+            let mut sc = Script { puller: p, zstd, beve: kind == 2, open: Open::Ok, verify_ok: !rng.chance(1, 5), trailer: if p.has_trailer() { *rng.pick(&[0usize, 1, stream_len, stream_len + 1]) } else { 0 }, dest: *rng.pick(&[Dest::None, Dest::Old]), dec, wire, wfault: None, sync_fault: false, ws: false, verify_panics: false, verify_kind: 0, dfault: None, via_ps: false, style: 0 };
+            sc.via_ps = !p.is_async() && !p.has_trailer() && rng.chance(1, 2);
+            out.count(&format!("real.chunk.{chunk}"));
+            ctx.exec_real(out, &next("r"), &r, &sc);
+        }
+    }
+
+    // (D) value-returning pulls (every public entry point): the value spans the whole stream, truncated at every k
+    for mode in ["sync", "async", "stream", "vec", "vecasync", "typed", "typedasync", "complex", "complexasync", "consume", "consumeasync", "consumeerr", "consumeerrasync", "consumepanic", "consumepanicasync"] {
+        let base = mode.trim_end_matches("async");
         for zstd in [false, true] {
+            ZSTD_LEVEL.store(*rng.pick(&[1, 3, 19]), Ordering::Relaxed);
             let vn = 23 + rng.below(10) as usize;
-            let val: Vec<u8> = rng.bytes(vn);
-            let enc = beve::to_vec(&val).unwrap();
+            let enc: Vec<u8> = match base {
+                "typed" => { let v: Vec<f64> = (0..vn / 4).map(|_| (rng.next() % 1000) as f64 / 7.0).collect(); let mut b = vec![]; beve::to_writer_typed_slice(&mut b, &v).unwrap(); b }
+                "complex" => { let v: Vec<repe::Complex<f32>> = (0..vn / 4).map(|_| repe::Complex { re: (rng.next() % 100) as f32, im: (rng.next() % 100) as f32 / 3.0 }).collect(); let mut b = vec![]; beve::to_writer_complex_slice(&mut b, &v).unwrap(); b }
+                "vec" | "consume" | "consumeerr" | "consumepanic" => rng.bytes(vn),
+                _ => beve::to_vec(&rng.bytes(vn)).unwrap(),
+            };
             let sizes = [5usize, 7, 4];
             let nch = split_at_sizes(&if zstd { zstd_of(&enc) } else { enc.clone() }, &sizes).len();
             let mut scripts = vec![make_script(Puller::File, zstd, &enc, &sizes, None, false), make_script(Puller::File, zstd, &enc, &sizes, None, true)];
+            let full = thorough || matches!(mode, "sync" | "async" | "vec" | "vecasync");
             for k in 0..=nch {
+                if !full && k != 0 && k != 1 && k != nch - 1 && k != nch {
+                    continue;
+                }
                 for f in [Resp::Error, Resp::Cut] {
                     scripts.push(make_script(Puller::File, zstd, &enc, &sizes, Some((k, f)), false));
                 }
@@ -1913,11 +2384,17 @@ fn gen_and_run(args: &Args, out: &mut Out, ctx: &mut Ctx) {
             let mut oe = make_script(Puller::File, zstd, &enc, &sizes, None, false);
             oe.open = Open::Err;
             scripts.push(oe);
-            for sc in scripts {
-                ctx.exec_value(out, &next("v"), asyn, &sc, enc.len());
+            if !zstd {
+                // the empty stream
+                scripts.push(make_script(Puller::File, false, &[], &[4], None, true));
+            }
+            for mut sc in scripts {
+                sc.style = rng.next() & 0x7fff;
+                ctx.exec_value(out, &next("v"), mode, &sc, enc.len());
             }
         }
     }
+    ZSTD_LEVEL.store(3, Ordering::Relaxed);
 
     // (G) write-side faults: the file system refuses a write (EFBIG under RLIMIT_FSIZE in the pulling child;
     //     stands for ENOSPC / EDQUOT / EIO too). The limit sweeps the first byte, every chunk boundary +-1,
@@ -2088,6 +2565,24 @@ fn replay(ops: Vec<String>, out: &mut Out, ctx: &mut Ctx) {
                     }
                 }
             }
+            "seq" => {
+                let mut steps = vec![];
+                let mut rest: Vec<String> = w[3..].iter().map(|x| x.to_string()).collect();
+                while !rest.is_empty() {
+                    let rw: Vec<&str> = rest.iter().map(|x| x.as_str()).collect();
+                    match Script::parse(&rw) {
+                        Some((sc, after)) => {
+                            steps.push(sc);
+                            rest = after;
+                        }
+                        None => break,
+                    }
+                }
+                if !steps.is_empty() {
+                    ctx.exec_seq(out, &idx, w[2].starts_with("old"), &steps, false);
+                    ctx.exec_seq(out, &format!("{idx}b"), w[2].starts_with("old"), &steps, true);
+                }
+            }
             "sibling" => {
                 if let Some(n) = unhex(w[2]).and_then(|b| String::from_utf8(b).ok()) {
                     ctx.exec_sibling(out, &idx, &n);
@@ -2116,7 +2611,7 @@ fn replay(ops: Vec<String>, out: &mut Out, ctx: &mut Ctx) {
             "real" => {
                 if w.len() > 7 {
                     if let Some((sc, _)) = Script::parse(&w[7..]) {
-                        let r = Real { kind: match w[2] { "writer" => 1, "value" => 2, _ => 0 }, panics: w[4].starts_with('p'), chunk: w[3].parse().unwrap_or(16), fail: w[4].trim_start_matches('p').parse().ok(), depth: w[5].parse().unwrap_or(4), payload: unhex(w[6]).unwrap_or_default() };
+                        let r = Real { level: w[2].split('@').find_map(|x| x.strip_prefix('l').and_then(|n| n.parse().ok())).unwrap_or(3), slow: w[2].contains("@slow"), kind: match w[2].split('@').next().unwrap_or("") { "writer" => 1, "value" => 2, _ => 0 }, panics: w[4].starts_with('p'), chunk: w[3].parse().unwrap_or(16), fail: w[4].trim_start_matches('p').parse().ok(), depth: w[5].parse().unwrap_or(4), payload: unhex(w[6]).unwrap_or_default() };
                         ctx.exec_real(out, &idx, &r, &sc);
                     }
                 }
@@ -2139,8 +2634,12 @@ fn replay(ops: Vec<String>, out: &mut Out, ctx: &mut Ctx) {
                         sync_fault: false,
                         ws: false,
                         verify_panics: false,
+                        verify_kind: 0,
+                        dfault: None,
+                        via_ps: false,
+                        style: 0,
                     };
-                    ctx.exec_value(out, &idx, w[2] == "async", &sc, w[7].parse().unwrap_or(0));
+                    ctx.exec_value(out, &idx, w[2], &sc, w[7].parse().unwrap_or(0));
                 }
             }
             _ => {}
